@@ -44,11 +44,44 @@ SUMMARY = {
 }
 
 
+REVERTS = {
+    "33dcc44": ("C10", "revert: future helper interface exported at version 0 again"),
+    "e1e14f6": ("C10", "revert: diff_abi_def ignores return values of nested definitions again"),
+    "b1dc0b6": ("C17", "revert: [T; N] falls back to the default introspect_len (stops at 10000)"),
+    "9ecb769": ("C04", "revert: Packed for ArrayVec forwards its element's answer again"),
+}
+HISTORY = """
+## How the checks fared
+
+Batch 1 (C01..C09) was read before it was run, and the workloads were widened where a patch needed an input the generator could not
+produce: default-repr structs with runs of equally aligned fields (C01-A), (small, big, small) tuples in bulk containers (C02-A),
+one enum per supported repr width (C04-A), equally long arrays of different element types (C05-A), low-byte inconsistencies between the
+two BitVec header words (C06-A), multi-frame *encrypted files* (C07-B), interfaces with 63/64 arguments and 70 methods (C09-A),
+futures abandoned after one poll (C09-B). With those, every change of batch 1 was reported on its first run.
+
+Batch 2 (C10..C18) was run blind. Missed on the first run and why; all are reported now:
+* C10-B  - the generated interfaces had no closure arguments: added `via_cb`, `mk_cb`, `fut` with a per-hop projection oracle
+           (this also exposed defect #21 on the unchanged tree).
+* C12-A  - versioned enum variants were only ever appended: added enums whose versioned variants sit in the middle.
+* C13-A  - primitive-kind mutations went to u8/u32 only: now every ordered pair of kinds, bare and nested.
+* C16-A  - threads only raced on the *same* interface: added tight-loop cached creation of different interfaces.
+* C16-B  - a type-level hole: added a `Sync` probe that enables a sharing workload against a Cell-based implementation.
+* C17-A  - no tuple struct with an ignored field in the zoo: added.
+Silent by design: C03 on C03-A (C03 loads single values; the bulk path is C04's subject), C01 on C02-B and C05 on C13-A
+(consistent on both sides / needs the canary-u32 pair that only C13 constructs).
+
+Regressions (`R-<commit>`): the reverse of the four fix commits made after the seeding started, to show that the checks that led to
+the fixes still report them.
+"""
+
+
 def main():
     rows = []
-    for d in sorted(glob.glob(os.path.join(VERIF, "seeded", "C??-?"))):
+    for d in sorted(glob.glob(os.path.join(VERIF, "seeded", "C??-?"))) + sorted(glob.glob(os.path.join(VERIF, "seeded", "R-*"))):
         sid = os.path.basename(d)
         prop, var = sid.split("-")
+        if prop == "R":
+            prop = REVERTS[var][0]
         patch = open(os.path.join(d, "patch.diff")).read()
         files = sorted(set(re.findall(r"^diff --git a/(\S+)", patch, re.M)))
         confirm = None
@@ -66,8 +99,8 @@ def main():
         caught = sorted(c for c, r in res.items() if r.get("rc") == 1)
         missed = sorted(c for c, r in res.items() if r.get("rc") == 0)
         other = sorted(c for c, r in res.items() if r.get("rc") not in (0, 1))
-        meta = dict(id=sid, property=prop, origin="independent sub-agent given only the property text and a scratch worktree",
-                    summary=SUMMARY.get(sid, ""), files_changed=files, confirmed_by_me=confirm,
+        meta = dict(id=sid, property=prop, origin=("reverse of fix commit %s (regression)" % var) if sid.startswith("R-") else "independent sub-agent given only the property text and a scratch worktree",
+                    summary=SUMMARY.get(sid, "") or (REVERTS[var][1] if sid.startswith("R-") else ""), files_changed=files, confirmed_by_me=confirm,
                     checks_run={c: dict(exit=r.get("rc"), wall_s=r.get("wall_s"), args=r.get("args"), first_lines=r.get("lines", [])[:4]) for c, r in res.items()},
                     caught_by=caught, not_caught_by=missed, inconclusive=other,
                     apply="git -C /repo apply /verif/seeded/%s/patch.diff   (undo: git -C /repo checkout -- .)" % sid)
@@ -81,6 +114,7 @@ def main():
         f.write("| id | change | caught by | run but silent |\n|---|---|---|---|\n")
         for m in rows:
             f.write("| %s | %s | %s | %s |\n" % (m["id"], m["summary"], ", ".join(m["caught_by"]) or "-", ", ".join(m["not_caught_by"]) or "-"))
+        f.write(HISTORY)
     print("wrote %d meta files" % len(rows))
 
 
